@@ -175,7 +175,9 @@ AtomProps(atom, m) ==
      [] atom = "msg.oracle" -> {"C15"}
      [] atom = "msg.unknown" -> {"C07"}
      [] atom \in {"wire.canon", "wire.url"} -> {"C19"})
-  \cup R(m = "migrate_roundtrip", "C18")
+  \cup R(m \in {"migrate_roundtrip", "migrate_from_0_4_20"}, "C18")
+  \* (a wrong LST denom after an upgrade is a C19 matter: it is the denom of every later mint and burn)
+  \cup R(m = "migrate_from_0_4_20" /\ atom = "c.cfg", "C19")
   \* halting / resuming may change nothing but the flag (and the three totals)
   \cup R(m \in {"circuit_breaker", "resume_contract"} /\ atom # "msg.oracle", "C10")
 
@@ -188,7 +190,8 @@ ReasonProps(reason, m) ==
     [] reason = "not_received" -> {"C05"}
     [] reason = "no_request" -> {"C05", "C08"}
     [] reason \in {"no_lst", "fee_exceeds_reward"} -> {"C11"}
-    [] reason = "unauthorized_hook" -> {"C08", "C09"}
+    \* (C06: a batch becomes Received only through a payment by the authenticated staker)
+    [] reason = "unauthorized_hook" -> {"C08", "C09"} \cup R(m = "receive_unstaked_tokens", "C06")
     [] reason = "no_funds" -> IF m = "receive_rewards" THEN {"C11"} ELSE {"C06"}
     [] reason \in {"not_trader", "route_not_allowed", "denom_mismatch", "bad_local_receiver", "bad_ibc_receiver"} -> {"C13"}
     [] reason = "unauthorized" /\ m \in {"t_spend", "t_update_config"} -> {"C13"}
@@ -219,7 +222,7 @@ SuccessProps(w, call) ==
      [] m \in {"accept_ownership", "transfer_ownership", "revoke_ownership_transfer",
                "t_accept_ownership", "t_transfer_ownership", "t_revoke_ownership_transfer"} -> {"C12"}
      [] m \in {"t_swap_in", "t_swap_out", "t_spend", "t_update_config"} -> {"C13"}
-     [] m = "migrate_roundtrip" -> {"C18"}
+     [] m \in {"migrate_roundtrip", "migrate_from_0_4_20"} -> {"C18"}
      [] OTHER -> {})
   \cup R(w.c.cfg.oracle = None /\ m \in {"liquid_stake", "submit_batch", "withdraw", "receive_rewards", "resume_contract"}, "C15")
 
@@ -279,6 +282,8 @@ Findings(l) ==
       act == {[l |-> l, kind |-> "act", m |-> m, atom |-> "Act_C06", props |-> {"C06"}] : x \in R(~Act_C06(pre, o), 1)}
              \cup {[l |-> l, kind |-> "act", m |-> m, atom |-> "Act_C04", props |-> {"C04"}] :
                      x \in R(e.res.ok /\ ~Act_C04(pre, o, [m |-> m]), 1)}
+             \cup {[l |-> l, kind |-> "act", m |-> m, atom |-> "Act_C11", props |-> {"C11"}] :
+                     x \in R(e.res.ok /\ m = "receive_rewards" /\ ~Act_C11(pre, o, e.res.msgs), 1)}
   IN panic \cup cmp \cup inv \cup qrate \cup act
 
 \* ------------------------------------------------------------------ the trace as a behaviour
